@@ -327,6 +327,20 @@ pub fn gen_header(r: &mut Rng, depth: usize) -> Value {
     }
     Value::Map(m)
 }
+/// a long, otherwise valid map (9..=14 distinct extra labels) in which one label occurs twice at random positions
+fn gen_long_dup(r: &mut Rng, first: Option<(Value, Value)>, extra: &dyn Fn(i64) -> Value) -> Value {
+    let n = 9 + r.below(6) as i64;
+    let mut m: Vec<(Value, Value)> = vec![];
+    if let Some(f) = first { m.push(f); }
+    for i in 0..n { m.push((extra(i), Value::from(i))); }
+    if r.chance(80) {
+        let a = r.below(m.len() as u64) as usize;
+        let dup = m[a].clone();
+        let b2 = (a + 1 + r.below((m.len() - a) as u64) as usize).min(m.len());
+        m.insert(b2, (dup.0, Value::from(99)));
+    }
+    Value::Map(m)
+}
 /// a COSE_Key-like map
 pub fn gen_key(r: &mut Rng) -> Value {
     let n = r.pick(&[0u64, 1, 2, 2, 3, 4, 5]);
@@ -476,7 +490,8 @@ pub fn probe_headers() -> i32 {
         maps.push(vec![(l1.clone(), good(l1)[0].clone()), (l2.clone(), good(l2)[0].clone()), (l3.clone(), good(l3)[0].clone())]);
     } } }
     // generated header maps (seeded): nested counter signatures, protected byte strings, whitespace in content types, boundary integers
-    { let mut r = Rng::from_env(); for _ in 0..6000 { if let Value::Map(m) = gen_header(&mut r, 0) { maps.push(m); } } }
+    { let mut r = Rng::from_env(); for _ in 0..6000 { if let Value::Map(m) = gen_header(&mut r, 0) { maps.push(m); } }
+      for _ in 0..300 { if let Value::Map(m) = gen_long_dup(&mut r, None, &|i| if i % 3 == 0 { Value::Text(format!("p{}", i)) } else { Value::from(100 + i) }) { maps.push(m); } } }
     let mut n = 0u64;
     let mut accepted = 0u64;
     for m in &maps {
@@ -578,6 +593,11 @@ pub fn probe_framing() -> i32 {
             if <$t>::from_tagged_slice(&bb).is_ok() { if report("C14", format!("{} accepts the doubly tagged item {}", $name, hex(&bb))) { return 1; } }
         }
         if <$t>::from_tagged_slice(&$body).is_ok() { if report("C14", format!("{}::from_tagged_slice accepts an untagged item", $name)) { return 1; } }
+        for hd in [vec![0xd8u8, $tag as u8], vec![0xd9, 0, $tag as u8], vec![0xda, 0, 0, 0, $tag as u8], vec![0xdb, 0, 0, 0, 0, 0, 0, 0, $tag as u8]] {
+            n += 1;
+            let mut b = hd.clone(); b.extend($body);
+            if <$t>::from_tagged_slice(&b).is_err() { if report("C14", format!("{}::from_tagged_slice rejects its own tag written with the head {} (tag numbers, not byte patterns, identify the type)", $name, hex(&hd))) { return 1; } }
+        }
         let v = <$t>::from_slice(&$body).unwrap();
         let mut want = head(6, $tag); want.extend(v.clone().to_vec().unwrap());
         if v.to_tagged_vec().unwrap() != want { if report("C14", format!("{}::to_tagged_vec is not tag {} applied to to_vec", $name, $tag)) { return 1; } }
@@ -620,6 +640,13 @@ pub fn probe_framing() -> i32 {
             let mut h = vec![0xa1u8, 0x09]; for _ in 0..depth { h.push(0x81); } h.push(0x00);
             agree!(Header, h.clone(), "Header with a deeply nested extra parameter");
             if Header::from_slice(&h).is_err() { if report("C13,C01", format!("Header with an extra parameter nested {} deep is rejected by from_slice", depth)) { return 1; } }
+        }
+        for wire in [vec![0xa0u8], vec![0xbf, 0xff], vec![0xa1, 0x18, 0x01, 0x26], vec![0xa2, 0x04, 0x41, 0x01, 0x01, 0x26], vec![]] {
+            n += 1;
+            if let Ok(p) = ProtectedHeader::from_cbor_bstr(Value::Bytes(wire.clone())) {
+                let e1 = p.clone().to_vec().ok(); let e2 = p.clone().to_cbor_value().ok().map(|v| ser(&v));
+                if e1 != e2 { if report("C13", format!("ProtectedHeader decoded from the bstr {}: to_vec gives {:?}, serialise(to_cbor_value) gives {:?}", hex(&wire), e1.map(|b| hex(&b)), e2.map(|b| hex(&b)))) { return 1; } }
+            }
         }
         agree!(CoseSign1, sign1.clone(), "CoseSign1"); agree!(CoseEncrypt0, enc0.clone(), "CoseEncrypt0"); agree!(Header, vec![0xa2, 0x01, 0x26, 0x20, 0x01], "Header");
         agree!(ProtectedHeader, vec![0xa1, 0x01, 0x26], "ProtectedHeader"); agree!(CoseKey, vec![0xa2, 0x01, 0x04, 0x20, 0x41, 0x01], "CoseKey");
@@ -820,7 +847,7 @@ pub fn probe_messages() -> i32 {
         let v = if r.chance(3) { gen_any(&mut r) } else { Value::Array(a) };
         let want = msg_ref(kind, &v);
         n += 1; if want { accepted += 1; }
-        macro_rules! one { ($t:ty, $payload:ident) => {{
+        macro_rules! one { ($t:ty, $payload:ident, $follow:expr) => {{
             let got = <$t>::from_cbor_value(v.clone());
             if got.is_ok() != want { if report("C09", format!("{} {}: crate {} it, its CDDL says {}", names[kind], hex(&ser(&v)), if got.is_ok() { "accepts" } else { "rejects" }, if want { "accept" } else { "reject" })) { return 1; } }
             if let (Ok(x), Value::Array(a)) = (got, &v) {
@@ -829,14 +856,24 @@ pub fn probe_messages() -> i32 {
                 if let Some(f) = cmp_header_fields(&a[1], &x.unprotected) { if report("C09,C08", format!("{} {}: unprotected header field {} differs from the wire", names[kind], hex(&ser(&v)), f)) { return 1; } }
                 let slot: Option<Vec<u8>> = match &a[2] { Value::Bytes(b) => Some(b.clone()), _ => None };
                 if x.$payload != slot { if report("C09", format!("{} {}: payload / ciphertext field {:?} differs from slot", names[kind], hex(&ser(&v)), x.$payload)) { return 1; } }
+                // C01: everything a caller does next with an accepted value (panics surface as a crash of this probe)
+                let y = x.clone(); let _ = y == x; let _ = format!("{:?}", y); let _ = y.clone().to_vec(); $follow(&y); drop(y);
                 // C07: the accepted value re-encodes and decodes to the same value
                 let back = x.clone().to_cbor_value().ok().and_then(|w| <$t>::from_cbor_value(w).ok());
                 if back.map(|b| format!("{:?}", b)) != Some(format!("{:?}", x)) { if report("C07,C11", format!("{} {}: does not survive encode/decode", names[kind], hex(&ser(&v)))) { return 1; } }
             }
         }}; }
         match kind {
-            0 => one!(CoseSign1, payload), 1 => one!(CoseSign, payload), 3 => one!(CoseMac, payload), 4 => one!(CoseMac0, payload),
-            5 => one!(CoseEncrypt, ciphertext), 6 => one!(CoseEncrypt0, ciphertext), 7 => one!(CoseRecipient, ciphertext),
+            0 => one!(CoseSign1, payload, |m: &CoseSign1| { let _ = m.tbs_data(b"aad"); let _ = m.verify_signature(b"aad", |_s, _d| -> Result<(), ()> { Ok(()) });
+                                                              if m.payload.is_none() { let _ = m.tbs_detached_data(b"p", b"aad"); let _ = m.verify_detached_signature(b"p", b"aad", |_s, _d| -> Result<(), ()> { Ok(()) }); } }),
+            1 => one!(CoseSign, payload, |m: &CoseSign| { for (i, sg) in m.signatures.iter().enumerate() { let _ = m.tbs_data(b"aad", sg); let _ = m.verify_signature(i, b"aad", |_s, _d| -> Result<(), ()> { Ok(()) });
+                                                              if m.payload.is_none() { let _ = m.tbs_detached_data(b"p", b"aad", sg); let _ = m.verify_detached_signature(i, b"p", b"aad", |_s, _d| -> Result<(), ()> { Ok(()) }); } } }),
+            3 => one!(CoseMac, payload, |m: &CoseMac| { if m.payload.is_some() { let _ = m.verify_tag(b"aad", |_t, _d| -> Result<(), ()> { Ok(()) }); } }),
+            4 => one!(CoseMac0, payload, |m: &CoseMac0| { if m.payload.is_some() { let _ = m.verify_tag(b"aad", |_t, _d| -> Result<(), ()> { Ok(()) }); } }),
+            5 => one!(CoseEncrypt, ciphertext, |m: &CoseEncrypt| { if m.ciphertext.is_some() { let _ = m.decrypt(b"aad", |_c, _d| -> Result<Vec<u8>, ()> { Ok(vec![]) }); }
+                                                                    for rc in &m.recipients { if rc.ciphertext.is_some() { let _ = rc.decrypt(EncryptionContext::EncRecipient, b"aad", |_c, _d| -> Result<Vec<u8>, ()> { Ok(vec![]) }); } } }),
+            6 => one!(CoseEncrypt0, ciphertext, |m: &CoseEncrypt0| { if m.ciphertext.is_some() { let _ = m.decrypt(b"aad", |_c, _d| -> Result<Vec<u8>, ()> { Ok(vec![]) }); } }),
+            7 => one!(CoseRecipient, ciphertext, |m: &CoseRecipient| { if m.ciphertext.is_some() { let _ = m.decrypt(EncryptionContext::MacRecipient, b"aad", |_c, _d| -> Result<Vec<u8>, ()> { Ok(vec![]) }); } }),
             _ => { let got = CoseSignature::from_cbor_value(v.clone());
                    if got.is_ok() != want { if report("C09", format!("COSE_Signature {}: crate {} it, its CDDL says {}", hex(&ser(&v)), if got.is_ok() { "accepts" } else { "rejects" }, if want { "accept" } else { "reject" })) { return 1; } } }
         }
@@ -876,7 +913,8 @@ pub fn probe_keys() -> i32 {
     let mut maps: Vec<Vec<(Value, Value)>> = vec![vec![]];
     for l in &labels { for v in &values { maps.push(vec![(l.clone(), v.clone())]); maps.push(vec![(Value::from(1), Value::from(4)), (l.clone(), v.clone())]); maps.push(vec![(l.clone(), v.clone()), (Value::from(1), Value::Text("kt".into()))]); } }
     for l1 in &labels { for l2 in &labels { maps.push(vec![(Value::from(1), Value::from(2)), (l1.clone(), Value::Bytes(vec![7])), (l2.clone(), Value::Bytes(vec![8]))]); } }
-    { let mut r = Rng::from_env(); for _ in 0..6000 { if let Value::Map(m) = gen_key(&mut r) { maps.push(m); } } }
+    { let mut r = Rng::from_env(); for _ in 0..6000 { if let Value::Map(m) = gen_key(&mut r) { maps.push(m); } }
+      for _ in 0..300 { if let Value::Map(m) = gen_long_dup(&mut r, Some((Value::from(1), Value::from(4))), &|i| Value::from(-1 - i)) { maps.push(m); } } }
     let mut n = 0u64;
     for m in &maps {
         n += 1;
@@ -969,7 +1007,8 @@ pub fn probe_claims() -> i32 {
     let mut maps: Vec<Vec<(Value, Value)>> = vec![vec![]];
     for k in &keys { for v in &vals { maps.push(vec![(k.clone(), v.clone())]); } }
     for k1 in &keys { for k2 in &keys { maps.push(vec![(k1.clone(), Value::Text("a".into())), (k2.clone(), Value::Text("b".into()))]); maps.push(vec![(k1.clone(), Value::from(5)), (Value::from(-70000), Value::Null), (k2.clone(), Value::from(6))]); } }
-    { let mut r = Rng::from_env(); for _ in 0..6000 { if let Value::Map(m) = gen_claims(&mut r) { maps.push(m); } } }
+    { let mut r = Rng::from_env(); for _ in 0..6000 { if let Value::Map(m) = gen_claims(&mut r) { maps.push(m); } }
+      for _ in 0..300 { if let Value::Map(m) = gen_long_dup(&mut r, None, &|i| Value::from(-70000 - i)) { maps.push(m); } } }
     for m in &maps {
         n += 1;
         let v = Value::Map(m.clone());
